@@ -476,7 +476,7 @@ def run(ctx):
         "overlap_threshold + 0.05, bond graph connected, vacuum gap - 2 r_max >= cluster_threshold + 1 A, lateral cell heights >= 9 A, covalent radii",
     ]
     broken = None
-    c17.FACTS.update(c17.source_facts())
+    c17.FACTS.update(c17.observed_facts())
     pres = C.prove_property(PID)
     ctx.record_proof(pres)
     if pres["failed"]:
